@@ -33,6 +33,12 @@ def make(i, tier):
         r = rng.random()
         if r < 0.2:
             ex["via"] = "raw" if r < 0.1 else "raw-noid"
+    if scn["executions"] and rng.random() < 0.08:
+        # two byte-identical anonymous start events (same machine, same input, no name, no message id) at one instant
+        ex = dict(scn["executions"][0], via="raw-anon", name=None)
+        twin = dict(ex)
+        scn["executions"][0] = ex
+        scn["executions"].append(twin)
     if rng.random() < 0.15:
         # a Task whose function has no queue: the mandatory request comes back as Basic.Return - not a delivery, so
         # nothing may be acknowledged for it - and fails the Task (caught here), beside the other executions
